@@ -178,20 +178,7 @@ def run_case(cid, case):
 
 
 def classify(v):
-    """Root cause grouping for known_findings.json (development time): which switch shapes are involved."""
-    import ast
-    try:
-        cid = ast.literal_eval(v["case_id"])
-    except Exception:
-        return None
-    combo = cid[1]
-    grouped_default_after_group = any(it[0] == "switch" and it[2] == "grouped" and len(it[1]) >= 2 for it in combo)
-    two_break_only = any(it[0] == "switch" and sum(1 for g in it[1] if g[1] == 0) >= 2 for it in combo)
-    if v["kind"] in ("jump-in-output", "op-count"):
-        if grouped_default_after_group:
-            return "C13-default-grouped-after-other-case"
-        if two_break_only:
-            return "C13-two-break-only-cases"
+    """Root cause grouping for known_findings.json (development time). No open root cause is left for C13."""
     return None
 
 
